@@ -14,9 +14,8 @@
 
   Where the code still deviates from NumPy the theorem is named `…_partial`, carries the exact
   extra hypothesis, shows the full NumPy statement in a comment and is followed by a concrete
-  `example … := by decide` exhibiting the deviation on the model.  Remaining deviations:
-  empty index / empty slice assignments skip the validation of the value; `resize` on a slice
-  view touches the parent.
+  `example … := by decide` exhibiting the deviation on the model.  Remaining deviation:
+  empty index / empty slice assignments skip the validation of the value.
 -/
 import HealSparse.Lemmas.Packed
 namespace HS
@@ -564,32 +563,38 @@ theorem resize_rejects (h : Heap) (p : PBA) (n : Int) (hn : n < p.size) :
     resize h p n = ((h, p), some .value) := by
   simp [resize, hn]
 
-/-- NumPy: a view cannot be resized (`ValueError`), and nothing changes.
-    The code raises too when the byte count would change, and leaves `size` alone — but it has
-    already cleared the padding bits of the view's last byte, which are bits of the PARENT
-    (`h1` differs from `h` exactly there); hence `_partial`: the NumPy statement `h1 = h` holds
-    only if those bits were clear.  When the byte count does not change the call is accepted. -/
-theorem resize_rejects_view_partial (h : Heap) (p : PBA) (hwf : WF h p) (n : Nat) (hlt : (bits h p).length < n)
-    (hown : p.own = false) (hnd : (n + p.start + 7) / 8 ≠ p.len) :
-    ∃ h1, resize h p n = ((h1, p), some .value) ∧ h1.size = h.size ∧
-      (∀ k, (padBit p k → hbit h1 k = false) ∧ (¬ padBit p k → hbit h1 k = hbit h k)) ∧
-      ((∀ k, padBit p k → hbit h k = false) → ∀ w, WF h w → bits h1 w = bits h w) := by
+/-- A view cannot be resized (as for numpy arrays): `ValueError`, and nothing changes — neither
+    the heap (in particular the parent's bits behind the view) nor the object (`size` stays). -/
+theorem resize_rejects_view (h : Heap) (p : PBA) (hwf : WF h p) (n : Nat) (hlt : (bits h p).length < n)
+    (hown : p.own = false) : resize h p n = ((h, p), some .value) := by
   rw [toBools_length h p hwf] at hlt
-  obtain ⟨h1, e, hsz, hm⟩ := resize_view_spec h p hwf n hlt hown hnd
-  refine ⟨h1, e, hsz, hm, fun hclear w hw => ?_⟩
-  exact (toBools_congr_bits h h1 w hw hsz (fun k _ _ => by
-    by_cases c : padBit p k
-    · rw [(hm k).1 c, hclear k c]
-    · exact (hm k).2 c)).2
+  exact resize_view_spec h p hwf n hlt hown
 
-/-- the deviation: `a = P(30 × True); v = a[3:6]; v.resize(50)` raises `ValueError` and has
-    cleared `a[6]` and `a[7]`; `v.resize(5)` (same byte count) is accepted, clears them too, and
-    `v` then covers them. -/
+/-- A refused `resize` (shrinking, or a view) leaves the heap and the object unchanged, whatever
+    the arguments. -/
+theorem resize_refused_unchanged (h : Heap) (p : PBA) (hwf : WF h p) (n : Int) (e : PErr)
+    (hr : (resize h p n).2 = some e) : (resize h p n).1 = (h, p) := by
+  have hs := hwf.stop_eq
+  obtain ⟨a1, a2, a3, a4, a5⟩ := hwf
+  have hsize : p.size = (p.n : Int) := by simp only [PBA.size, PBA.n]; omega
+  by_cases c1 : n < p.size
+  · simp [resize, c1]
+  · by_cases c2 : n = p.size
+    · simp [resize, c2] at hr
+    · cases hown : p.own
+      · simp [resize, c1, c2, hown]
+      · exfalso
+        obtain ⟨m, rfl⟩ : ∃ m : Nat, n = m := ⟨n.toNat, by omega⟩
+        obtain ⟨h', p', e', _⟩ := resize_spec h p ⟨a1, a2, a3, a4, a5⟩ m (by omega) (Or.inl hown)
+        rw [e'] at hr
+        simp at hr
+
+/-- hypotheses satisfiable, and the former deviation is gone: `a = P(30 × True); v = a[3:6]`;
+    `v.resize(50)` and `v.resize(5)` (same byte count) are both refused with `a` intact. -/
 example :
     let h : Heap := #[0xFF, 0xFF, 0xFF, 0x3F]
     let v : PBA := ⟨0, 1, 3, 6, false⟩
-    resize h v 50 = ((#[0x3F, 0xFF, 0xFF, 0x3F], v), some .value) ∧
-    resize h v 5 = ((#[0x3F, 0xFF, 0xFF, 0x3F], ⟨0, 1, 3, 8, false⟩), none) := by
+    resize h v 50 = ((h, v), some .value) ∧ resize h v 5 = ((h, v), some .value) := by
   decide
 
 /-- `p.sum(shape=shape)` (no axis) on an aligned array whose size is the product of `shape`
